@@ -41,7 +41,18 @@ if [ -f "$D/demo.diff" ]; then git apply -R "$D/demo.diff"; else rm "$S/agdb/tes
 if [ $RAFT = 1 ]; then
   suite=$(timeout 2400 cargo nextest run -p agdb_server --offline --no-fail-fast raft:: 2>&1 | grep -E "Summary" | tail -1)
 else
-  suite=$(timeout 2400 cargo nextest run -p agdb -p agdb_derive --offline --no-fail-fast 2>&1 | grep -E "Summary" | tail -1)
+  timeout 2400 cargo nextest run -p agdb -p agdb_derive --offline --no-fail-fast > "$S/suite.out" 2>&1
+  suite=$(grep -E "Summary" "$S/suite.out" | tail -1)
+  # tests/test_db/test_file.rs helper tests share one fixed file name across all integration-test binaries and fail at
+  # random when nextest runs the binaries in parallel (with or without any patch): name the failures and re-run them alone
+  failed=$(grep -E "^\s+FAIL " "$S/suite.out" | awk '{print $NF}' | sort -u | tr '\n' ' ')
+  if [ -n "$failed" ]; then
+    rerun=""
+    for t in $failed; do
+      if timeout 600 cargo nextest run -p agdb --offline -j 1 -E "test(=$t)" > "$S/rerun.out" 2>&1; then rerun="$rerun $t:passes-alone"; else rerun="$rerun $t:FAILS-alone"; fi
+    done
+    suite="$suite | failed in the parallel run: $failed| re-run alone:$rerun"
+  fi
 fi
 echo "$N | demo without patch: $without | demo with patch: $with | existing tests with patch: $suite"
 cd /; rm -rf "$S"
